@@ -280,10 +280,10 @@ COMPONENTS = [
                                  'with-refused-step' if any('refused' in s
                                                             for s in c['steps'])
                                  else 'all-valid'],
-              budget={'quick': 4800, 'thorough': 96000},
+              budget={'quick': 4800, 'thorough': 48000},
               describe='2-4 headers in sequence: object re-use after re-assignment, '
                        'equal-comparing timestamps of the repeated DST hour'),
     Component('headers', check, strategy=header_cases, nontrivial=nontrivial,
-              classes=classes, budget={'quick': 16000, 'thorough': 320000},
+              classes=classes, budget={'quick': 16000, 'thorough': 160000},
               describe='random subsets and values'),
 ]
